@@ -204,6 +204,7 @@ func (c *Ctx) runTLC(j TLCJob) TLCResult {
 	for k, v := range j.Defs {
 		args = append(args, "-D"+k+"="+v)
 	}
+	args = append(args, "-Djava.io.tmpdir="+dir) // TLC unpacks helper files into a temporary directory per run: keep them in the scratch directory
 	args = append(args, "-cp", tlaJar+":"+cmJar+":"+filepath.Join(verifRoot, "build/classes"), "tlc2.TLC",
 		"-metadir", filepath.Join(dir, "md"), "-workers", strconv.Itoa(j.Workers), "-config", filepath.Base(j.Cfg))
 	if j.Simulate != "" {
